@@ -120,6 +120,7 @@ func sortStrings(xs []string) {
 func history(c *lib.Ctx, sc *lib.Script, fails *[]lib.OracleFail, rng *lib.RNG, steps int) {
 	g := &sg.Gen{R: rng, Depth: 2, Hit: c.Hit}
 	k := sg.NewCase(c, sc, fails, true)
+	k.Spell = rng.Fork()
 	prev := observe(k)
 	existing := func() (types.Map, bool) {
 		if len(k.Ref.Docs) == 0 {
